@@ -251,6 +251,20 @@ CHECKS = {
         "Real sympy symbols; tolerance 1e-9; values on a 3-point grid per symbol (entries are analytic in the "
         "parameters). ZX diagrams are valued by the textbook semantics of the phases the library holds.",
         "DESIGN.md 4/C14"),
+    "C15": (
+        "exhaustive enumeration of parametrised circuits / tensor diagrams up to the bound x symbols x "
+        "pure/mixed, the real grad/jacobian evaluated and compared with symbolic differentiation of the "
+        "evaluation on a point grid",
+        "Every diagram of the enumerated family (rotations and controlled rotations with affine and "
+        "non-linear phases in two real symbols, daggers, pure/mixed/sqrt scalars, composed with every fixed "
+        "or parametrised box that fits; tensor boxes and polynomial bubbles, also around composite "
+        "diagrams), both symbols, pure (amplitude) and default parameter-shift (classical-quantum) "
+        "gradients: grad(...).eval() must equal d/dvar of eval() at every grid point; a diagram without the "
+        "symbol has the empty sum as gradient; jacobian blocks are the gradients in variable order.",
+        "Oracle = sympy.diff of the symbolic evaluation, cross-checked by central finite differences (an "
+        "oracle inconsistency aborts instead of reporting). NotImplementedError is a refusal. Known finding: "
+        "pure scalars in default gradients (known_findings.json). Tolerance 1e-8.",
+        "DESIGN.md 4/C15"),
 }
 
 PENDING_REASON = ("check not built yet in this session (planned: bounded exhaustive exploration as in "
